@@ -745,6 +745,61 @@ def t_block():
     return out
 
 
+def t_hetfacts():
+    """structural facts of het_block.py / function.py that the loop models rely on"""
+    hb = 'blocks/het_block.py'
+    U = lambda q: ast.unparse(find_def(hb, q))
+    facts = {}
+    bn = U('HetBlock.backward_nonlinear')
+    facts['backward_nonlinear_shape'] = all(x in bn for x in ("for t in reversed(range(T))", "backdict[k + '_p'] = exog.expectation(backdict[k])",
+        "backdict.update({k: ss[k] + v[t, ...] for k, v in inputs.items()})", "backdict.update(self.backward_fun(backdict))",
+        "individual_paths[k][t, ...] = backdict[k]", "exog = self.make_exog_law_of_motion(backdict)", "exog_path.append(exog)", "return (individual_paths, exog_path[::-1])"))
+    fn = U('HetBlock.forward_nonlinear')
+    facts['forward_nonlinear_shape'] = all(x in fn for x in ("Dbeg = ss['Dbeg']", "Dbeg_path[0, ...] = Dbeg", "D_path[t, ...] = exog_path[t].forward(Dbeg)", "Dbeg = endog.forward(D_path[t, ...])",
+        "Dbeg_path[t + 1, ...] = Dbeg", "individual_paths[k][t, ...] for k in self.policy"))
+    imp = U('HetBlock._impulse_nonlinear')
+    facts['impulse_uses_initial_distribution_and_copies_ss'] = all(x in imp for x in ("ss = self.extract_ss_dict(ssin)", "ss['Dbeg'] = ss_initial.internals[self.name]['Dbeg']",
+        "fast_aggregate(individual_paths['D'], individual_paths[self.M_outputs.inv @ o])", "toreturn = (toreturn | internals) - ['D', 'Dbeg']"))
+    bs = find_def(hb, 'HetBlock.backward_steady_state')
+    src = ast.unparse(bs)
+    loops = [n for n in bs.body if isinstance(n, ast.For) and n.orelse]
+    facts['backward_steady_state_shape'] = (len(loops) == 1 and len(loops[0].orelse) == 1 and isinstance(loops[0].orelse[0], ast.Raise)
+        and "if it % 10 == 1 and all((utils.optimized_routines.within_tolerance(ss[k], old[k], tol) for k in self.policy)):" in src
+        and "old.update({k: ss[k] for k in self.policy})" in src and "ss.update(self.backward_fun(ss))" in src)
+    fs = find_def(hb, 'HetBlock.forward_steady_state')
+    src = ast.unparse(fs)
+    loops = [n for n in fs.body if isinstance(n, ast.For)]
+    facts['forward_steady_state_shape'] = (len(loops) == 1 and len(loops[0].orelse) == 1 and isinstance(loops[0].orelse[0], ast.Raise)
+        and "if it % 10 == 0 and utils.optimized_routines.within_tolerance(Dbeg, Dbeg_new, tol):" in src and "Dbeg_new = endog.forward(D)" in src
+        and "D_new = exog.forward(Dbeg_new)" in src and "return (Dbeg, D)" in src)
+    st = U('HetBlock._steady_state')
+    facts['aggregates_weight_by_D'] = "aggregates = {o.upper(): np.vdot(D, ss[o]) for o in toreturn}" in st and "ss.update({'Dbeg': Dbeg, 'D': D})" in st
+    jf = U('HetBlock.J_from_F')
+    facts['J_from_F_shape'] = all(x in jf for x in ("J = F.copy()", "for t in range(1, J.shape[1]):", "J[1:, t] += J[:-1, t - 1]", "return J"))
+    bf = U('HetBlock.build_F')
+    facts['build_F_shape'] = all(x in bf for x in ("Tpost = curlyEs.shape[0] - T + 2", "F[0, :] = curlyYs", "F[1:, :] = curlyEs.reshape((Tpost + T - 2, -1)) @ curlyDs.reshape((T, -1)).T"))
+    sfn = U('HetBlock.backward_step_fakenews')
+    facts['hetoutput_derivative_sees_direct_input'] = "differentiable_hetoutput.diff({**shocked_outputs, **din_dict}, outputs=differentiable_hetoutput.outputs & output_list)" in sfn
+    fun = 'utilities/function.py'
+    d1 = find_def(fun, 'DifferentiableExtendedFunction.diff')
+    d2 = find_def(fun, 'DifferentiableCombinedExtendedFunction.diff')
+
+    def default_of(fn, name):
+        a = fn.args
+        names = [x.arg for x in a.args]
+        defaults = dict(zip(names[len(names) - len(a.defaults):], a.defaults))
+        return ast.unparse(defaults[name]) if name in defaults else None
+    facts['twosided_default_defers_to_constructor'] = default_of(d1, 'twosided') == 'None' and default_of(d2, 'twosided') == 'None' \
+        and 'twosided = self.default_twosided' in ast.unparse(d1) and 'twosided = self.default_twosided' in ast.unparse(d2)
+    jp = U('HetBlock.jac_backward_prelim')
+    facts['twosided_request_reaches_backward_and_hetoutputs'] = "self.hetoutputs.differentiable(ss, h, twosided)" in jp and "self.backward_fun.differentiable(ss, h, twosided)" in jp \
+        and "self.hetinputs.differentiable(ss, h, True)" in jp
+    out = ''
+    for k, v in facts.items():
+        out += f"Definition {k} : bool := {'true' if v else 'false'}.\n"
+    return out
+
+
 TARGETS = {
     'MultiplyBasis': t_multiply_basis,
     'ComputeL': t_compute_l,
@@ -756,6 +811,7 @@ TARGETS = {
     'Solvers': t_solvers,
     'Remap': t_remap,
     'BlockFacts': t_block,
+    'HetFacts': t_hetfacts,
 }
 
 
